@@ -959,6 +959,15 @@ def _writer_purity(prog):
                         if isinstance(rd, ast.Name) and rd.id in conts:
                             verdict = True
                             why = '(iv) restores the value saved in `%s` before writing' % rd.id
+                        elif isinstance(rd, ast.Name):
+                            # the value is an element of such a container: `for t, w in saved: t.data[k] = w`
+                            for (_, dv_) in name_defs(f, rd.id):
+                                if isinstance(dv_, tuple) and len(dv_) > 1 and isinstance(dv_[1], ast.AST) \
+                                        and set(x_.id for x_ in ast.walk(dv_[1]) if isinstance(x_, ast.Name)) & conts:
+                                    verdict = None
+                                    why = 'the stored value is taken out of `%s`, which was filled from the same field before writing: ' \
+                                          'a save / restore in a shape this rule does not follow element by element' % \
+                                          sorted(set(x_.id for x_ in ast.walk(dv_[1]) if isinstance(x_, ast.Name)) & conts)[0]
                 obs.append(Ob('R-STATE/G6', f.fq, 'store `%s` keeps the tree\'s content as the writer found it'
                               % unparse(d.ast)[:70], verdict, why, construct='g6:%s:%s' % (k, unparse(d.ast)[:70]),
                               line=cfg.nodes[d.node].lineno))
@@ -1086,7 +1095,18 @@ def r_optside(prog, tier):
                 continue
             star = _starstar(x)
             if star is None:
-                continue        # the call passes no option dictionary (nothing to mix up)
+                # no option dictionary at all: fine for a dispatch that never gets one; a sibling site of the same kind in
+                # this function that does pass the options shows that this one dropped them
+                sibs = [y for y in walk_own(f.node) if isinstance(y, ast.Call) and y is not x and _getattr_dispatch(y)
+                        and _getattr_dispatch(y)[:2] == d[:2] and _starstar(y) is not None]
+                if sibs:
+                    obs.append(Ob('R-OPTSIDE', f.fq, 'dispatch `%s` receives the options of its own side' % unparse(x.func)[:60], False,
+                                  'this %s call passes no options, the other call of the same kind in this function (line %d) passes '
+                                  '`%s`: one of the two branches ignores --%s' % (
+                                      'reader' if want == 'src_opts' else 'writer', sibs[0].lineno, _starstar(sibs[0])[:40],
+                                      want.replace('_', '-')),
+                                  construct='optside-none:%s' % unparse(x.func)[:60], line=x.lineno))
+                continue
             n += 1
             got = [a for a in OPTION_ATTRS if 'args.%s' % a in star]
             if got == [want]:
@@ -1106,6 +1126,37 @@ def r_optside(prog, tier):
 
 
 # ------------------------------------------------------------------------------------ R-PERTREE
+
+def _chained_apply(prog):
+    """In a loop that applies a sequence of transformations, each step works on the result of the step before:
+    `x = step(x, ...)`.  `y = step(x, ...)` with x never re-bound in the loop applies every step to the original."""
+    obs = []
+    for mod in ('transform', 'transitions', 'grammar', 'treeanalysis'):
+        f = prog.func(mod, 'run')
+        cfg = f.cfg
+        for lp in [n for n in cfg.eval_nodes() if n.kind == 'iter' and unparse(n.ast.iter) in ('args.trans', 'args.transform')]:
+            for m in cfg.eval_nodes():
+                if m.kind != 'stmt' or lp.id not in m.loops or not isinstance(m.ast, ast.Assign) or len(m.ast.targets) != 1 \
+                        or not isinstance(m.ast.targets[0], ast.Name) or not isinstance(m.ast.value, ast.Call):
+                    continue
+                c = m.ast.value
+                callee_txt = unparse(c.func)
+                if not (callee_txt.startswith('globals()[') or callee_txt.startswith('getattr(transform')) or not c.args \
+                        or not isinstance(c.args[0], ast.Name):
+                    continue
+                tgt, src = m.ast.targets[0].id, c.args[0].id
+                if tgt == src:
+                    ok, why = True, '`%s = step(%s, ...)`: each step gets the result of the one before' % (tgt, src)
+                else:
+                    rebound = any(lp.id in cfg.nodes[dn].loops for (dn, _) in name_defs(f, src))
+                    ok = None if rebound else False
+                    why = '`%s = step(%s, ...)`: `%s` is not re-bound in the loop, so every step is applied to the tree as it was read ' \
+                          'and only the result of the last step is used - a step that returns a new root (add_topnode) or None ' \
+                          '(a filter) is lost when another step follows' % (tgt, src, src)
+                obs.append(Ob('R-PERTREE', f.fq, 'the transformations are applied one after the other', ok, why,
+                              construct='chain:%s:%s' % (tgt, src), line=m.lineno))
+    return obs
+
 
 def r_pertree(prog, tier):
     """In the drivers' tree loops, what is done with a tree (task, extraction, oracle, writer) does not depend on the
@@ -1152,4 +1203,5 @@ def r_pertree(prog, tier):
                               construct='pertree:' + unparse(uses[0])[:60], line=m.lineno))
     if nsites < 4:
         raise Unrecognised('R-PERTREE: %d per-tree steps found in the drivers (at least 4 expected)' % nsites)
+    obs.extend(_chained_apply(prog))
     return obs, {'per_tree_steps': nsites}
